@@ -36,6 +36,15 @@ theorem c10_encode_accepts_iff (s : Snapshot) :
 /-- The tag table read from `enum ValueTag` has pairwise distinct tags. -/
 theorem c10_tags_distinct : allTags.Nodup := by decide
 
+/-- **Format stability.**  As long as `RETAIN_VERSION` is 1 the magic and the tag numbers are the
+ones of the STRN v1 format, so files written by earlier builds keep their meaning (renumbering a
+tag without bumping the version breaks this obligation; the harness then also shows the pinned
+golden image being misread). -/
+theorem c10_format_v1_pinned : version = 1 →
+    magic = [0x53, 0x54, 0x52, 0x4E] ∧
+    allTags = [1, 2, 3, 4, 5, 6, 7, 8, 9, 10, 11, 12, 13, 14, 15, 16, 17, 18, 19, 20, 21, 22, 23, 24,
+      25, 26, 27, 28, 29, 30, 31] := by decide
+
 /-! ## Clause 3: arbitrary file contents give `Ok` or `Err`, with bounded resources -/
 
 /-- **Totality.**  The decoder is a total function (by construction) and the fuel that makes its
@@ -57,16 +66,16 @@ theorem c10_decode_total (bytes : Bytes) :
 the bytes still unread at that moment (16 per dimension pair, one per element), which are part of
 the input. -/
 theorem c10_decode_alloc (bytes : Bytes) :
-    (∀ req remaining, .allocElems req remaining ∈ (decodeSnapshotW bytes).log →
+    (∀ req remaining, .allocElems req remaining ∈ (decodeSnapshotW bytes).log.toList →
       req ≤ remaining ∧ remaining ≤ bytes.length) ∧
-    (∀ req remaining, .allocDims req remaining ∈ (decodeSnapshotW bytes).log →
+    (∀ req remaining, .allocDims req remaining ∈ (decodeSnapshotW bytes).log.toList →
       16 * req ≤ remaining ∧ remaining ≤ bytes.length) :=
   ⟨fun _ _ h => (inv_decodeSnapshotW bytes).1 _ h, fun _ _ h => (inv_decodeSnapshotW bytes).1 _ h⟩
 
 /-- Hence no single request exceeds the size of the file (in elements, resp. 16-byte pairs). -/
 theorem c10_decode_alloc_le_file (bytes : Bytes) (req remaining : Nat) :
-    (.allocElems req remaining ∈ (decodeSnapshotW bytes).log → req ≤ bytes.length) ∧
-    (.allocDims req remaining ∈ (decodeSnapshotW bytes).log → 16 * req ≤ bytes.length) := by
+    (.allocElems req remaining ∈ (decodeSnapshotW bytes).log.toList → req ≤ bytes.length) ∧
+    (.allocDims req remaining ∈ (decodeSnapshotW bytes).log.toList → 16 * req ≤ bytes.length) := by
   constructor
   · intro h; have := (c10_decode_alloc bytes).1 _ _ h; omega
   · intro h; have := (c10_decode_alloc bytes).2 _ _ h; omega
@@ -74,7 +83,7 @@ theorem c10_decode_alloc_le_file (bytes : Bytes) (req remaining : Nat) :
 /-- **Recursion bound.**  `decode_value` is never entered with a depth argument above
 `MAX_RETAIN_DEPTH + 1`, whatever the input. -/
 theorem c10_decode_depth (bytes : Bytes) (depth : Nat)
-    (h : .enter depth ∈ (decodeSnapshotW bytes).log) : depth ≤ maxDepth + 1 :=
+    (h : .enter depth ∈ (decodeSnapshotW bytes).log.toList) : depth ≤ maxDepth + 1 :=
   (inv_decodeSnapshotW bytes).1 _ h
 
 /-- The limit in the current source: at most 66 nested frames (depth arguments `0..=65`). -/
@@ -166,7 +175,7 @@ example : ∃ bytes, encodeSnapshot exSnap = .ok bytes ∧
 /-- The decoder's ghost log is not empty: the 23-byte witness of the old allocation defect
 (header, one entry, empty name, `Array`, len `0xFFFFFFFF`, dims 0) requests 0 elements now. -/
 example :
-    (decodeSnapshotW [83, 84, 82, 78, 1, 0, 1, 0, 0, 0, 0, 0, 0, 0, 28, 255, 255, 255, 255, 0, 0, 0, 0]).log =
+    (decodeSnapshotW [83, 84, 82, 78, 1, 0, 1, 0, 0, 0, 0, 0, 0, 0, 28, 255, 255, 255, 255, 0, 0, 0, 0]).log.toList =
       [.enter 0, .allocDims 0 0, .allocElems 0 0, .enter 1] := by decide
 
 /-- Snapshots that `store` rejects exist (nothing is written for them). -/
